@@ -89,7 +89,8 @@ func oracle(in *ctl.Inst, r *vs.Result) []string {
 		}
 	}
 	// never regressing: with a healthy watch and a quiet server the cache cannot hold an older version than the server
-	if !o.DoneAtRead && o.HistDoneAtRead && len(in.C.WatchFaults) == 0 && in.C.DefaultWatch.Kind == "" && o.CacheAtRead != want {
+	// (not with model buffers of one event: there a burst overflows the watch path itself, which is the documented loss)
+	if !o.DoneAtRead && o.HistDoneAtRead && len(in.C.WatchFaults) == 0 && in.C.DefaultWatch.Kind == "" && in.C.Bufsiz == 0 && o.CacheAtRead != want {
 		msgs = append(msgs, fmt.Sprintf("cache regressed or lost watch events | %s: the watch is healthy and the server is quiet, yet the cache holds %s while the server's accepted objects are %s (list snapshots at %v, server at %d)", desc, o.CacheAtRead, want, o.ListRVs, o.ServerRV))
 	}
 	// the watch never goes back in time: Watch calls carry non-decreasing versions (a relist moves the watch forward to
